@@ -143,6 +143,21 @@ func TaintTime(n *v1.Node) (time.Time, bool) {
 	return time.Unix(ts, 0), true
 }
 
+// TaintTimes returns every readable taint time recorded under the escalator key (a node may
+// carry the key more than once, with different effects) and whether any escalator taint exists.
+func TaintTimes(n *v1.Node) (times []time.Time, any bool) {
+	for _, t := range n.Spec.Taints {
+		if t.Key != TaintKey {
+			continue
+		}
+		any = true
+		if ts, err := strconv.ParseInt(t.Value, 10, 64); err == nil {
+			times = append(times, time.Unix(ts, 0))
+		}
+	}
+	return
+}
+
 // NoDelete reports whether the node carries a non-empty no-delete annotation.
 func NoDelete(n *v1.Node) bool { return n.Annotations[NoDeleteKey] != "" }
 
@@ -267,15 +282,25 @@ func cmpPct(req, cap *big.Int, T int64) (c int, near bool) {
 	return
 }
 
+// exactInFloat64 reports whether the integer is exactly representable as a float64.
+func exactInFloat64(n *big.Int) bool {
+	if n.Sign() == 0 {
+		return true
+	}
+	return n.BitLen()-int(n.TrailingZeroBits()) <= 53
+}
+
 // floatSafe reports whether escalator's float64 percentage (request*100/capacity, both taken
 // in thousandths of the unit: millicores, milli-bytes) is computed without any rounding before
 // the division, so that exact equality with an integer threshold is representable.
 func floatSafe(req, cap *big.Int, scale int64) bool {
-	limit := new(big.Int).Lsh(big.NewInt(1), 53)
-	r := new(big.Int).Mul(req, big.NewInt(100*scale))
+	r := new(big.Int).Mul(req, big.NewInt(scale))
 	c := new(big.Int).Mul(cap, big.NewInt(scale))
-	return r.Cmp(limit) < 0 && c.Cmp(limit) < 0
+	return exactInFloat64(r) && exactInFloat64(new(big.Int).Mul(r, big.NewInt(100))) && exactInFloat64(c)
 }
+
+// FloatSafe is floatSafe for callers outside the package.
+func FloatSafe(req, cap *big.Int, scale int64) bool { return floatSafe(req, cap, scale) }
 
 // cmpMax compares u = max(cpu%, mem%) with T; fuzzy says that the deciding comparison sits
 // in the float tolerance zone (unequal but closer than 2^-30 relative), or is an exact
